@@ -17,7 +17,7 @@ from fdsim import specgen
 
 PROPERTY = "C08"
 LEVEL = "exploration"
-RUNS = {"quick": 12, "thorough": 300}
+RUNS = {"quick": 16, "thorough": 300}
 TOL = 1e-11
 RULE = (
     "seeded random scenes, 4-6 cells per axis (more with PML) (non-cubic), per-face boundaries from periodic / Bloch pairs (random k) / PEC / PMC / none / "
